@@ -20,7 +20,7 @@ func init() {
 		ID:          "C08",
 		Level:       "other",
 		Run:         runC08,
-		Explanation: "Decides the structural sources of run-to-run and machine-to-machine variation: R08.1 every map range in non-test code is order-insensitive, by an automatic class (keyed stores/deletes, calls confined to the key's entry, append-then-sort, accumulation, order-free consumers) or by a table entry with a reason confirmed by reading; R08.2 the only goroutines are the queue iterator and the sorted-map iterator, both producers whose element sequence is fixed before the first receive, and consumer loops never push to the queue they iterate and remove only the received element; R08.3 no package-level variable written on a Run path is read on a Run path; R08.4 every consumer of a parsed program clears the per-instruction forward slot before use, so a program run by a forwarding machine carries nothing to the next machine; R08.5 the sorted-map iterator is given projections covering every key field and sort.Slice comparators compare keys that are unique in the sorted collection; R08.6 no wall clock, random source, OS or scheduler dependence is imported, and no select has two communication cases; R08.7 the sorted-map iterator snapshots and sorts the keys before its goroutine starts. Does not decide data races between machines run concurrently on one shared Application.",
+		Explanation: "Decides the structural sources of run-to-run and machine-to-machine variation: R08.1 every map range in non-test code is order-insensitive, by an automatic class (keyed stores/deletes, calls confined to the key's entry, append-then-sort, accumulation, order-free consumers) or by a table entry with a reason confirmed by reading; R08.2 the only goroutines are the queue iterator and the sorted-map iterator, both producers whose element sequence is fixed before the first receive, and consumer loops never push to the queue they iterate and remove only the received element; R08.3 no package-level variable written on a Run path is read on a Run path; R08.4 every consumer of a parsed program clears the per-instruction forward slot before use, so a program run by a forwarding machine carries nothing to the next machine; R08.5 the sorted-map iterator is given projections covering every key field and sort.Slice comparators compare keys that are unique in the sorted collection; R08.6 no wall clock, random source, OS or scheduler dependence is imported, and no select has two communication cases; R08.7 the sorted-map iterator snapshots and sorts the keys before its goroutine starts. Does not decide data races between machines run concurrently on one shared Application. R08.7 Forward(f) of every instruction stores f unconditionally in the slot its register reads consult (the decode-time clear Forward{} must reach the slot, or a forwarded operand of an earlier run stays in the shared program).",
 		Assumptions: []string{"machines are run one after another, or concurrently on separate Applications"},
 		Trusted:     []string{"go/types", "the classification table of map ranges (checker/c08.go, one line of reason per entry)"},
 	})
@@ -51,6 +51,9 @@ func runC08(r *Run) {
 	ruleGoroutines(r, "R08.2")
 	ruleGlobals(r, "R08.3")
 	ruleForwardCleared(r, "R08.4")
+	// the clearing reaches the slot: Forward(f) stores f whatever f is (the clear is Forward{} with register zero)
+	r.floor("R08.7", 45)
+	ruleForwardSetters(r, "R08.7")
 	ruleComparators(r, "R08.5")
 	ruleNondetSources(r, "R08.6")
 	ruleStableIterator(r, "R08.7")
